@@ -316,3 +316,64 @@ def c03_consts():
 
 
 GENERATORS = {"C03Consts": c03_consts}
+
+
+# ---------------------------------------------------------------------------------------
+# (T) the guards of the shipped self-check rails as expression trees (Gen/C03Guards.v); the flows
+# themselves (flat elements / statement trees) are in Gen/C01Flows.v (translator/gen_c01.py)
+
+
+def _v2_if_guards(rel, wanted):
+    import sys
+
+    if REPO not in sys.path:
+        sys.path.insert(0, REPO)
+    from nemoguardrails.colang import parse_colang_file
+    from nemoguardrails.colang.v2_x.lang.colang_ast import If, When
+
+    with open(os.path.join(REPO, rel), encoding="utf-8") as f:
+        parsed = parse_colang_file(os.path.basename(rel), f.read(), version="2.x")
+    flows = {fl.name: fl for fl in parsed["flows"]}
+    out = []
+
+    def visit(els):
+        for e in els or []:
+            if isinstance(e, If):
+                out.append(e.expression)
+                visit(e.then_elements)
+                visit(e.else_elements)
+            elif isinstance(e, When):
+                for b in e.then_elements:
+                    visit(b)
+                visit(e.else_elements)
+
+    for name in wanted:
+        if name not in flows:
+            raise TranslatorError(f"{rel}: flow `{name}` not found")
+        visit(flows[name].elements)
+    return out
+
+
+def c03_guards():
+    from translator.gen_c16 import _v1_if_guards, guard_table
+
+    g = []
+    g += _v1_if_guards("nemoguardrails/library/self_check/input_check/flows.v1.co", ["self check input"])
+    g += _v1_if_guards("nemoguardrails/library/self_check/output_check/flows.v1.co", ["self check output"])
+    g += _v2_if_guards("nemoguardrails/library/self_check/input_check/flows.co", ["self check input"])
+    g += _v2_if_guards("nemoguardrails/library/self_check/output_check/flows.co", ["self check output"])
+    lines = [
+        "(* GENERATED on every run by /verif/translator/gen_c03.py from the current source tree. Do not edit. *)",
+        "From Coq Require Import String List.",
+        "From NG Require Import Pipe.OptGuards.",
+        "Import ListNotations.",
+        "Open Scope string_scope.",
+        "",
+        "(* the `if` guards of the shipped `self check input` / `self check output` rails, Colang 1.0 and 2.x *)",
+        f"Definition c03_guard_table : list (string * gexpr) :=\n  {guard_table(g)}.",
+        "",
+    ]
+    return "\n".join(lines)
+
+
+GENERATORS["C03Guards"] = c03_guards
